@@ -1360,6 +1360,38 @@ for _m, _nm in ((b"070701", "newc"), (b"070702", "crc"), (b"07070X", "stripped")
         HARNESSES["c04_cpio_%s_%d_%d" % (_nm, _t, _n)] = (lambda m, t, n: (lambda ctx: c04_cpio(ctx, m, t, n)))(_m, _t, _n)
 
 
+def struct_fields(name, known):
+    """field values of a crate struct in declaration order (read from the repository's source); fields the harness does not know get the default of
+    their type (empty Vec / String, 0, None) so that an added field does not break the harness"""
+    import glob
+    import re as _re
+    from symex import REPO_ROOT, Opaque
+    for p_ in glob.glob(os.path.join(REPO_ROOT[0], "src", "**", "*.rs"), recursive=True):
+        txt = open(p_, errors="replace").read()
+        m = _re.search(r"pub struct %s(?:<[^>{]*>)? \{(.*?)\n\}" % name, txt, _re.S)
+        if not m:
+            continue
+        out = []
+        for fm in _re.finditer(r"^\s*(?:pub(?:\([a-z]+\))? )?(\w+):\s*([^\n]*?),?\s*$", m.group(1), _re.M):
+            fname, fty = fm.group(1), fm.group(2)
+            if fname in known:
+                out.append(known[fname])
+            elif fty.startswith("Vec<"):
+                out.append(VecV([]))
+            elif fty == "String":
+                out.append(string(b""))
+            elif fty.startswith("Option<"):
+                out.append(Adt("Option", "None"))
+            elif fty in ("usize", "u64", "u32", "u16", "u8", "i32", "i64"):
+                out.append(Int(0, fty))
+            elif fty == "bool":
+                out.append(Bool_(False))
+            else:
+                out.append(Opaque("field:" + fname))
+        return out
+    raise Unsupported("struct %s not found in the source" % name)
+
+
 def c04_fileiter(ctx, nbytes):
     """FileIterator::next on a payload that starts with a well-formed newc entry (name "a", `nbytes` content bytes) while the header's
     file entry carries a symbolic (untrusted) size: no panic, no allocation out of proportion to the input"""
@@ -1386,7 +1418,7 @@ def c04_fileiter(ctx, nbytes):
                                             Adt("FileOwnership", "FileOwnership", [string(b"root"), string(b"root")]), Adt("Timestamp", "Timestamp", [Int(0, "u32")]),
                                             Int(inp["size"], "usize"), Adt("FileFlags", "bits", [Int(0, "u32")]), Adt("Option", "None"), Adt("Option", "None"), string(b""),
                                             Adt("Option", "None")])
-        it = Adt("FileIterator", "FileIterator", [VecV([fe]), Reader(bs), Int(0, "usize")])
+        it = Adt("FileIterator", "FileIterator", struct_fields("FileIterator", {"file_entries": VecV([fe]), "archive": Reader(bs), "count": Int(0, "usize")}))
         cell = Cell(it)
         first = e.call_fn(nx, [Ref(cell)])
         return first
@@ -1396,6 +1428,8 @@ def c04_fileiter(ctx, nbytes):
         size = None
         if e.solver.check() == z3.sat:
             size = e.solver.model().eval(inp["size"], model_completion=True).as_long()
+        if k == "skip":
+            return
         if k == "alloc":
             ctx.fail("payload iteration: allocation out of proportion to the input", "FileIterator::next", kind="fileiter", size=size, nbytes=nbytes, detail=str(v))
             return
@@ -2318,7 +2352,7 @@ def replay_c12(ctx, fl):
     modes = {"regular": 0o100644, "dir": 0o040700, "symlink": 0o120777, "special": 0o020644}
     d = bytes.fromhex(fl["dir"])
     outs = []
-    for linkto in (b"../outside", b"../outside/victim", b"../../victim"):
+    for linkto in (b"../outside", b"../outside/victim", b"../../victim", b"../outside/dangling"):
         pk = RB.files_package([d, b""], [(1, bytes.fromhex(h), modes[k], linkto if k == "symlink" else b"", b"" if k in ("dir", "symlink") else b"pwned") for k, h in fl["files"]])
         ans = ctx.native.ask("extract", pk.hex())
         outs.append(ans)
